@@ -3,11 +3,14 @@
      binary  <nv> values.. <rows> <cols> cells..
      class   <nb> bins.. <rows> <cols> cells..
      jenksmin <k> <n> sorted integer data..
+     jenksimp <k> <n> sorted integer data..     (the imperative model of _run_numpy_jenks_matrices / _run_jenks)
    output: the result cells row-major, or ERR … *)
 open Model
 open Zio
 open Xio
 let opt_cell = function Some x -> string_of_xv x | None -> "FUEL"
+let string_of_q (q : q) = string_of_z q.qnum ^ "/" ^ string_of_z (Zpos q.qden)
+let rec range a b = if a > b then [] else a :: range (a + 1) b
 let () = main_loop (fun op r ->
   match op with
   | "reclass" ->
@@ -29,4 +32,24 @@ let () = main_loop (fun op r ->
     let xs = next_list r next_z in
     let q = jenks_min (List.map (fun z -> { qnum = z; qden = XH }) xs) (nat_of_int k) in
     string_of_z q.qnum ^ "/" ^ string_of_z (Zpos q.qden)
+  | "jenksimp" ->
+    (* jenksimp <k> <n> x1..xn -> every cell of the two (n+1) x (k+1) matrices row-major as
+         <lower_class_limit>,<var_combination num/den | inf>,<near-tie flag>
+       then  | <bt_ok 0/1> | kclass (num/den each) | cuts *)
+    let k = next_int r in
+    let xs = next_list r next_z in
+    let n = List.length xs in
+    let data = List.map (fun z -> { qnum = z; qden = XH }) xs in
+    let kn = nat_of_int k in
+    let (lm, vm) = jenks_matrices data kn in
+    let cell rr cc =
+      let rn = nat_of_int rr and cn = nat_of_int cc in
+      let v = match vm rn cn with Fin q -> string_of_q q | PInf -> "inf" in
+      let tie = if rr >= 2 && cc >= 2 && near_tie data vm rn cn then "1" else "0" in
+      string_of_z (lm rn cn) ^ "," ^ v ^ "," ^ tie in
+    let cells = List.concat_map (fun rr -> List.map (fun cc -> cell rr cc) (range 0 k)) (range 0 n) in
+    String.concat " " cells
+    ^ " | " ^ (if jenks_bt_ok data kn then "1" else "0")
+    ^ " | " ^ String.concat " " (List.map string_of_q (run_jenks data kn))
+    ^ " | " ^ String.concat " " (List.map (fun c -> string_of_int (int_of_nat c)) (jenks_cuts data kn))
   | _ -> "ERR unknown-op " ^ op)
